@@ -152,7 +152,7 @@ def run(ctx, rep):
 
 def C13_R3(mod, K, rep):
     """deferred wake-ups only for pooled records (same rule as C13.R3, reported here as C04.R5)"""
-    from .C13 import mucv_root
+    from .C13 import mucv_root, mucv_edges
     from ..cfg import cfg_of
     cvq = 'nsync_cv_s_.waiters'
     for fn in mod.defined.values():
@@ -178,10 +178,8 @@ def C13_R3(mod, K, rep):
                 for b in fn.blocks:
                     t = b.term
                     if t.op == 'br' and len(t.x['targets']) == 2:
-                        root = mucv_root(mod, fn, t.ops[0], K)
-                        if root and util.strip_ptr(fn, root[0]) == x:
-                            tgt = t.x['targets'][0] if root[1] else t.x['targets'][1]
-                            if fn.bmap[tgt].preds == [b.id] and cfg.dominates(tgt, i.block.id):
+                        for rx, tgt in mucv_edges(mod, fn, t, K):
+                            if util.strip_ptr(fn, rx) == x and fn.bmap[tgt].preds == [b.id] and cfg.dominates(tgt, i.block.id):
                                 ok = True
                 rep.instance('C04.R5', '%s: deferred wake of %s at %s' % (fn.name, fn.name_of(x), i.where())); rep.oblig('C04.R5', ok)
                 if not ok:
